@@ -318,7 +318,8 @@ def main_check(pid: str, tier: str, seed: int, replay: str | None = None) -> int
     lines = []
     for k, v in known.items():
         lines.append(f"KNOWN-FINDING: property={pid} {open_keys[k].get('what', v['what'])} [key={k}, seen {merged['viol_counts'].get(k, 0)}x]")
-    rdir = VERIF / "replays" / pid
+    out_root = Path(os.environ.get("VERIF_OUT") or VERIF)  # scratch-tree runs (tools/confirm_seed.sh, tools/try_mut.py) keep their output out of /verif
+    rdir = out_root / "replays" / pid
     seen_keys = {}
     for v in real:
         n = seen_keys.get(v["key"], 0)
@@ -368,8 +369,8 @@ def main_check(pid: str, tier: str, seed: int, replay: str | None = None) -> int
         "violations": int(n_real),
     }
     if replay is None:
-        (VERIF / "evidence").mkdir(exist_ok=True)
-        (VERIF / "evidence" / f"{pid}.json").write_text(dumps(evidence, indent=1) + "\n")
+        (out_root / "evidence").mkdir(parents=True, exist_ok=True)
+        (out_root / "evidence" / f"{pid}.json").write_text(dumps(evidence, indent=1) + "\n")
     for ln in lines:
         print(ln)
     mons = ", ".join(f"{k}={v}" for k, v in sorted(merged["monitors"].items()))
